@@ -52,6 +52,15 @@ CLAIMED["C07"] = dict(cat="model_checking", note=SRV_NOTE, technique=SRV_TECH, r
 CLAIMED["C08"] = dict(cat="model_checking", note=SRV_NOTE + "; memory-level races are judged by the Go race detector on the same schedules plus a free-running stress run", technique=SRV_TECH + "; Go race detector", ref="7 C08",
   text="every playlist response must be the snapshot of the state of its quiescent point and satisfy the single-playlist invariants; no panic; the harness is additionally built with -race and run over gated schedules and a free-running stress (one writer with parameter changes, many readers of every URL kind, RAM and disk)")
 
+CLAIMED["C14"] = dict(cat="model_checking", ref="7 C14",
+  text="M3U8.tla transcribes Marshal (Encode) and Unmarshal (Decode) tag by tag at token level; TLC enumerates every subset of optional fields per tag group (1200 abstract values) and checks Decode(Encode(p)) = p, refuting the pre-fix encoder; each abstract value is instantiated with concrete legal values and pushed through the real Marshal / Unmarshal / playlist.Unmarshal: field-by-field equality at the text resolution, fixpoint, kind detection and four syntactic variants are judged by TLC on the recorded cases; the real token shapes equal Encode(p)",
+  note="documented field requirements as stated in the evidence assumptions; concrete values are sampled (full integer ranges, 10 us durations, time zones)",
+  technique="TLA+ encoder/decoder model + TLC exhaustive enumeration of abstract values; instantiation on the real code; TLC trace validation")
+CLAIMED["C15"] = dict(cat="fault_enumeration", ref="7 C15",
+  text="an independent RFC 8216 grammar predicate (M3U8.tla Grammar) is evaluated by TLC on the tokens of everything the real Marshal produced for the enumerated values and of every playlist served by real muxers; the decoder is fed token-level malformations of each value plus the repository's corpora: no panic, no hang, and successes satisfy the structural postconditions and can be marshaled again",
+  note="token-level malformations and corpora, not coverage-guided fuzzing of arbitrary bytes (DESIGN section 9); one recorded finding (unquoted BYTERANGE) is tolerated by signature",
+  technique="TLA+ grammar automaton checked by TLC on recorded tokens; model-driven fault enumeration for the decoder")
+
 PENDING = "check not built yet in this session (planned, see DESIGN.md section 7); will be claimed once its TLA+ model and conformance harness are committed"
 
 
